@@ -17,6 +17,12 @@ def run(tier, seed):
     _res, g = ctx.model_check(cfgn, required_actions=["FromArrays", "GetItem", "GetCell"])
     for pe, we, sp in [("dyadic", "int", 0), ("ulp", "half", 1)]:
         ctx.replay(g, NDAdapter(POS[pe], WTS[we], spelling=sp), ND_VIEW, label=f"ND:{pe}/{we}/sp{sp}")
+    # selections of an adaptive histogram taken before and after it has grown (the selection shows the bins as they are NOW)
+    from lib.a_adaptive import AdaptiveAdapter, GridEmb
+    _res, ga = ctx.model_check("MC_Adaptive_sliceq", required_actions=["NewFilled", "Fill", "FillN", "SliceA"])
+    for sp, grid in ((0, GridEmb(1.0)), (1, GridEmb(0.5, 0.25))):
+        ctx.replay(ga, AdaptiveAdapter([grid], spelling=sp), {"accepted", "bins", "freq", "err2", "missed", "total", "live", "adaptive"},
+                   label=f"adaptive-slices:{grid.name}/sp{sp}")
     ctx.assumptions = ["PySlice / index normalisation is transcribed in TLA+ (PhystRec.Sliced, HistND.Indexed); slices with an explicit step "
                        "are outside the model (physt refuses them, which the statement allows)"]
     return ctx.finish("1D: every slice start:stop with start, stop in {None, -5..5} on 4-bin, gapped 3-bin and 1-bin histograms (non-empty "
